@@ -183,3 +183,8 @@ def check(ctx) -> None:
     from . import c06
 
     c06.rule_b2(ctx, pl, "C04-G5")
+    # G10: every balanced input row gets its own output row: no row disappears because an equal row shares its batch
+    # (shared with C05-P1, de-duplication part)
+    from . import c05
+
+    c05.rule_p1(ctx, pl, "C04-G10", only_duplicates=True)
